@@ -27,6 +27,10 @@ pub struct Inst {
     /// 0 random, 1 several in one first-layer coset, 2 all siblings of one coset, 3 single, 4 dense run
     pub qshape: u8,
     pub qsel: Vec<u16>,
+    /// polynomial shape: 0 PRF full degree, 1 zero polynomial, 2 constant, 3 vanishing at the first
+    /// queried point, 4 vanishing at every queried point (up to the degree), 5 one monomial
+    #[serde(default)]
+    pub pshape: u8,
 }
 
 impl Inst {
@@ -107,8 +111,9 @@ pub fn inst_strategy(budget: u32) -> impl Strategy<Value = Inst> {
         any::<u64>(),
         0u8..5,
         proptest::collection::vec(any::<u16>(), 2..44),
+        prop_oneof![12 => Just(0u8), 1 => Just(1u8), 1 => Just(2u8), 2 => Just(3u8), 2 => Just(4u8), 1 => Just(5u8)],
     )
-        .prop_map(move |(mut steps, mut log_last, log_blowup, nv, pseed, tseed, qshape, qsel)| {
+        .prop_map(move |(mut steps, mut log_last, log_blowup, nv, pseed, tseed, qshape, qsel, pshape)| {
             // fit into the budget by construction (no rejection)
             let avail = budget.saturating_sub(log_blowup).max(1);
             let mut sum = 0;
@@ -128,7 +133,7 @@ pub fn inst_strategy(budget: u32) -> impl Strategy<Value = Inst> {
             }
             log_last = log_last.min(avail.saturating_sub(sum));
             let log_input = sum + log_last + log_blowup;
-            Inst { steps, log_last, log_blowup, nvf: nv % (log_input + 2), pseed, tseed, qshape, qsel }
+            Inst { steps, log_last, log_blowup, nvf: nv % (log_input + 2), pseed, tseed, qshape, qsel, pshape }
         })
 }
 
@@ -172,8 +177,49 @@ pub fn witness(o: &FriOpening) -> Witness {
 pub fn build_instance(inst: &Inst, degree_override: Option<usize>) -> (FriInstance, RefTranscript) {
     let p = inst.params();
     let n_coefs = degree_override.unwrap_or(1usize << p.log_degree());
-    let coefs = prf_felts(inst.pseed, n_coefs);
+    let coefs = shaped_coefs(inst, n_coefs);
     let mut t = RefTranscript::new(prf_felt(inst.tseed, 0));
     let fi = FriInstance::commit(build_hash(), &p, coefs, &mut t);
     (fi, t)
+}
+
+/// multiply a coefficient vector by (y - r) in place (length grows by one)
+fn mul_linear(c: &mut Vec<Felt>, r: Felt) {
+    c.push(Felt::ZERO);
+    for i in (1..c.len()).rev() {
+        let lo = c[i - 1];
+        c[i] = lo - r * c[i];
+    }
+    c[0] = Felt::ZERO - r * c[0];
+}
+
+/// coefficients (over the unshifted domain) of the input polynomial for the instance's shape; the
+/// shapes other than 0 make queried evaluations, siblings or whole layers equal to zero
+pub fn shaped_coefs(inst: &Inst, n_coefs: usize) -> Vec<Felt> {
+    let p = inst.params();
+    let n = p.log_input();
+    let root_at = |q: u64| pow_u128(root_of_unity(n), bitrev(q, n) as u128);
+    match inst.pshape {
+        1 => vec![Felt::ZERO; n_coefs],
+        2 => {
+            let mut v = vec![Felt::ZERO; n_coefs];
+            v[0] = prf_felt(inst.pseed, 1);
+            v
+        }
+        3 | 4 if n_coefs >= 2 => {
+            let qs = inst.queries();
+            let k = if inst.pshape == 3 { 1 } else { qs.len().min(n_coefs - 1) };
+            let mut v = prf_felts(inst.pseed, n_coefs - k);
+            for q in qs.iter().take(k) {
+                mul_linear(&mut v, root_at(*q));
+            }
+            v
+        }
+        5 => {
+            let mut v = vec![Felt::ZERO; n_coefs];
+            v[(prf_u64(inst.pseed, 2) % n_coefs as u64) as usize] = prf_felt(inst.pseed, 3);
+            v
+        }
+        _ => prf_felts(inst.pseed, n_coefs),
+    }
 }
